@@ -44,7 +44,7 @@ JOBS = [
          expect_kinds=['postcondition'], timeout=600),
     dict(name='getSetIndex', bodies=['getSetIndex'], enforce=['getSetIndex'], covers=IAX_COVERS,
          expect_kinds=['postcondition'], timeout=600),
-    dict(name='getIndex', bodies=['getIndex'], enforce=['getIndex'], replace=['std_lower_bound_idx'],
+    dict(name='getIndex', bodies=['getIndex'], enforce=['getIndex'], replace=['std_lower_bound_idx', 'std_upper_bound_idx'],
          covers=['COVER-asc-LE-has', 'COVER-asc-LE-none', 'COVER-asc-Less-has', 'COVER-asc-GE-has', 'COVER-asc-GE-none',
                  'COVER-asc-Greater-has', 'COVER-asc-Equal-has', 'COVER-asc-k-below', 'COVER-asc-k-above', 'COVER-unsorted'],
          expect_kinds=['postcondition', 'precondition'], timeout=600),
